@@ -36,17 +36,18 @@ def setup_imports():
 class Violation(Exception):
     """Raised by an oracle; ends the run."""
 
-    def __init__(self, kind, site, detail=""):
+    def __init__(self, kind, site, detail="", tags=None):
         super().__init__(f"{kind} @ {site}: {detail}")
         self.kind = kind
         self.site = site
         self.detail = detail
+        self.tags = tags or {}
 
     def key(self):
         return (self.kind, self.site)
 
     def as_dict(self):
-        return {"kind": self.kind, "site": self.site, "detail": self.detail}
+        return {"kind": self.kind, "site": self.site, "detail": self.detail, "tags": self.tags}
 
 
 class Discard(Exception):
@@ -100,9 +101,9 @@ class Ctx:
     def fault(self, kind, k=1):
         self.faults[kind] += k
 
-    def violate(self, kind, site, detail=""):
+    def violate(self, kind, site, detail="", tags=None):
         self.log("VIOLATION", kind, site)
-        raise Violation(kind, site, detail)
+        raise Violation(kind, site, detail, tags)
 
     def digest(self):
         return self._h.hexdigest()
